@@ -432,6 +432,10 @@ func ruleC12(c *Ctx) {
 	c.rule("C12-R2", "bounded read: the flate reader flows only into io.LimitReader(r, max+1) with max = parameter, or 5 MiB when the parameter is 0; only the limited reader is read")
 	c.rule("C12-R3", "explicit check: the second decoder invocation is reached only with len(out) <= max; the other edge returns a fresh error")
 	c.rule("C12-R4", "same decoder: both attempts invoke the same function value; the second attempt's result is returned unchanged; the first attempt sees the caller's bytes")
+	c.rule("C12-R6", "decrypted assertions reach the decoder byte for byte: DecryptBytes returns exactly the opened / unpadded plaintext (shared layerArithmetic, also C11-R4) — a compressed plaintext is not reshaped before inflation")
+	if db := c.kernel("types.(*EncryptedAssertion).DecryptBytes", "*", "-types.(*EncryptedKey).DecryptSymmetricKey"); db != nil {
+		layerArithmetic(c, "C12-R6", db)
+	}
 	c.rule("C12-R5", "routing: every inbound entry point reaches maybeDeflate; limits: sp.MaximumDecompressedBodySize through parseResponse for validators and decrypted plaintext, the 5 MiB constant for the two pre-decoders")
 	isDecomp := func(n string) bool {
 		switch n {
